@@ -33,6 +33,9 @@ pub fn gen_case(seed: u64, idx: usize) -> Case {
     let gp = gen::random_params(&mut rng, opts.line_buffer_size.min(8));
     let mut lines = gen::generate(&mut rng, &gp);
     let _ = gen::add_byte_features(&mut lines, &mut rng);
+    if rng.chance(1, 3) {
+        let _ = gen::add_git_colors(&mut lines, &mut rng);
+    }
     let n = rng.range(1, 8);
     let mut rchunks: Vec<i64> = (0..n).map(|_| *rng.pick(&[0i64, 1, 2, 5, 17, 33, 100, 1000, 8192])).collect();
     if rchunks.iter().all(|c| *c == 0) {
